@@ -197,9 +197,37 @@ struct World {
     return src != nullptr && src->IsOpened() ? src : nullptr;
   }
 
+  std::map<PictID, ccl::change::Hash> lastCore{};   // formal content of the last source each pictogram had (kept when a result is discarded)
   void BeginTransition() { mgr->ResetSeq(); fresh.clear(); }
+  void RecordCores() {
+    for (auto it = lastCore.begin(); it != lastCore.end();) it = oss->Contains(it->first) ? std::next(it) : lastCore.erase(it);
+    for (const auto pid : Picts()) if (const auto* src = SourceOf(pid); src != nullptr) lastCore[pid] = src->schema.CoreHash();
+  }
+  // The OSS's own write: an execution that stored a result with different formal content changed the source of that pictogram. The
+  // environment does not announce a write (it announces on save / close), but the OSS made the change itself and knows it
+  // (SaveOperationResult compensates for "change of the result was not observed under guard"): counted like an announced change.
+  void OwnWrites() {
+    if (!ossLive || oss == nullptr) return;
+    for (const auto pid : Picts()) {
+      if (oss->Ops()(pid) == nullptr) continue;
+      const auto* src = SourceOf(pid);
+      if (src == nullptr || src->lastWriteSeq == 0) continue;
+      const auto before = lastCore.find(pid);
+      if (before == lastCore.end() || before->second == src->schema.CoreHash()) continue;   // no result was ever seen (nothing a child could be built from), or same formal content
+      for (const auto child : oss->Graph().ChildrenOf(pid)) {
+        const auto* handle = oss->Src()(child);
+        if (oss->Ops()(child) == nullptr || handle == nullptr || std::empty(*handle)) continue;
+        const auto* rs = SourceOf(child);
+        if (rs != nullptr && rs->lastWriteSeq > src->lastWriteSeq) continue;                   // re-executed after the parent's write
+        auto& f = fresh[child];
+        if (f.seq < src->lastWriteSeq) f.seq = src->lastWriteSeq;
+        f.how |= 4;
+      }
+    }
+  }
   // end of a transition: fold the obligations created in it into the monitor state, drop the discharged ones
   void Settle() {
+    OwnWrites(); RecordCores();
     std::map<PictID, Fresh> pending;
     for (auto& [o, how] : obligations) pending[o] = Fresh{ 0, how };
     for (auto& [o, f] : fresh) {  // a re-execution between an old and a new obligation discharges the old one
@@ -663,7 +691,7 @@ struct Sys {
       const auto st = oss.Ops().StatusOf(o);
       c.rep.count("obligation_checks");
       if (st != ccl::ops::Status::outdated && st != ccl::ops::Status::broken)
-        c.fail(std::string("C19:stale-result-reported-current:") + ((how & 1) ? "change-announced-to-listening-oss" : "change-written-by-execute-under-dnd-guard"), "an announced change altered the formal content of a parent's source, the operation has a stored result and was not re-executed, yet it does not report outdated/broken",
+        c.fail(std::string("C19:stale-result-reported-current:") + ((how & 1) ? "change-announced-to-listening-oss" : (how & 2) ? "change-written-by-execute-under-dnd-guard" : "parent-result-rewritten-by-execute"), (how & 3) ? "an announced change altered the formal content of a parent's source, the operation has a stored result and was not re-executed, yet it does not report outdated/broken" : "an execution stored a parent's result with different formal content, the operation has a stored result built before that and was not re-executed, yet it does not report outdated/broken",
                "status " + std::to_string(static_cast<int>(st)) + " for pictogram #" + std::to_string(std::lower_bound(picts.begin(), picts.end(), o) - picts.begin()), "5 (outdated) or 7 (broken)");
     }
     c.rep.count("state_checks");
@@ -701,6 +729,7 @@ struct Sys {
       out += dumpRSForm(src.schema); out += "]";
     }
     out += "MON{"; for (auto& [o, how] : w.obligations) out += std::to_string(o) + ":" + std::to_string(how) + ","; out += "}";
+    out += "LC{"; for (auto& [o, h] : w.lastCore) if (w.SourceOf(o) == nullptr) out += std::to_string(o) + ":" + std::to_string(h) + ","; out += "}";
     return out;
   }
 };
